@@ -23,15 +23,26 @@ func verifExporter(ctx context.Context, first uint64, freq uint64, k int) (*Stor
 // verifExporterQuiet: certificates with index >= quietFrom leave the power
 // table unchanged (empty delta).
 func verifExporterQuiet(ctx context.Context, first uint64, freq uint64, k int, quietFrom int) (*Store, *verifRef) {
+	mask := uint(0)
+	for j := quietFrom; j < k; j++ {
+		mask |= 1 << uint(j)
+	}
+	return verifExporterMask(ctx, first, freq, k, mask)
+}
+
+// verifExporterMask: certificate j leaves the power table unchanged iff bit j of quiet is set.
+func verifExporterMask(ctx context.Context, first uint64, freq uint64, k int, quiet uint) (*Store, *verifRef) {
 	ds := newVerifDS()
 	cs, err := CreateStore(ctx, ds, first, verifTableSeq(0))
 	sym.Assume(err == nil)
 	verifSetFreq(cs, freq)
 	ref := &verifRef{first: first, tables: []gpbft.PowerEntries{verifTableSeq(0)}}
+	changes := 0
 	for j := 0; j < k; j++ {
-		next := verifTableSeq(j + 1)
-		if j >= quietFrom {
-			next = ref.tables[j]
+		next := ref.tables[j]
+		if quiet&(1<<uint(j)) == 0 {
+			changes++
+			next = verifTableSeq(changes)
 		}
 		c := verifCert(ref.next(), int64(10*j), 2, ref.tables[j], next)
 		sym.Assume(cs.Put(ctx, c) == nil)
@@ -112,8 +123,9 @@ func VerifC17_Malformed() {
 	freq := 1 + uint64(sym.Choice("freq-minus-1", 4)) // checkpoints after each, every 2nd, ... 4th instance
 	k := 3
 	// the last 0..2 certificates may leave the power table unchanged
-	quietFrom := k - sym.Choice("quiet-tail", 3)
-	cs, ref := verifExporterQuiet(ctx, first, freq, k, quietFrom)
+	// which certificates leave the power table unchanged: none, the last, the last two, the first, the first two
+	quiet := []uint{0, 4, 6, 1, 3}[sym.Choice("quiet-pattern", 5)]
+	cs, ref := verifExporterMask(ctx, first, freq, k, quiet)
 	var buf bytes.Buffer
 	_, hdr, err := cs.ExportSnapshot(ctx, first+uint64(k-1), &buf)
 	sym.Assume(err == nil)
@@ -125,16 +137,25 @@ func VerifC17_Malformed() {
 	}
 	var m *manifest.Manifest
 	var out [][]byte
-	switch sym.Choice("corruption", 12) {
+	switch sym.Choice("corruption", 14) {
+	case 12:
+		sym.Cover("drop-first")
+		out = [][]byte{blocks[0], blocks[2], blocks[3]}
+	case 13:
+		sym.Cover("drop-first-two")
+		out = [][]byte{blocks[0], blocks[3]}
 	case 11:
 		// one certificate's delta replaced by another (its commitment kept): the
 		// tables derived from then on differ from what the certificates commit to
 		sym.Cover("tampered-delta")
 		j := sym.Choice("tampered-certificate", k)
 		bad := *ref.certs[j]
-		// tables[j] is table number min(j, quietFrom) of the sequence; two further on
-		// differs both from it and from the genuine successor
-		bad.PowerTableDelta = certs.MakePowerTableDiff(ref.tables[j], verifTableSeq(min(j, quietFrom)+2))
+		// a table of the sequence that is neither the current one nor the genuine successor
+		wrong := verifTableSeq(0)
+		for t := 1; wrong.Equal(ref.tables[j]) || wrong.Equal(ref.tables[j+1]); t++ {
+			wrong = verifTableSeq(t)
+		}
+		bad.PowerTableDelta = certs.MakePowerTableDiff(ref.tables[j], wrong)
 		var b bytes.Buffer
 		_, _ = writeSnapshotCborEncodedBlock(&b, &bad)
 		out = [][]byte{blocks[0], blocks[1], blocks[2], blocks[3]}
